@@ -7,6 +7,7 @@
              list reference of Repro/DocSpec.v (never against the model). *)
 From Coq Require Import String.
 From Verif Require Import Lib.Base Lib.Dec Lib.PyStr Gen.PyChars Repro.Doc Repro.DocInv Repro.DocSpec.
+From Verif Require Import Repro.Abs.
 
 (** * Literals written by the harness *)
 
@@ -128,6 +129,27 @@ Definition reparse_agree (d : doc) (st : steplit) : bool :=
   | None => true
   end.
 
+(** ... and the same through the C01 parser model: the lines of the model's dump, tokenized and
+    grouped by Repro/Token.v + Repro/Parse.v (the call the driver makes: duplicates accepted, error
+    tokens rejected) and abstracted by [Abs.abs_of_tree], read like the implementation's fresh
+    parse.  This is the function the theorems C05_parse_dump_abs / C05_set_readback are about. *)
+Definition reparse_model_agree (d : doc) (st : steplit) : bool :=
+  match s_reparse st with
+  | Some r =>
+      match py_reparse_strict (dump d) with
+      | Ok dd => read_eqb' (model_read dd) (dec_read r)
+      | Err _ => false
+      end
+  | None => true
+  end.
+
+(** the initial document: [abs_of_tree] of the parser model's tree for the case's text is the
+    document the harness read off the implementation's tree (items, paragraph classes, comment /
+    name / rest texts), and its item structure satisfies the extra hypothesis [doc_canon] of the
+    fresh-parse theorems *)
+Definition parse_agree (text : str) (d : doc) : bool :=
+  result_eqb doc_eqb (py_reparse_strict text) (Ok d) && doc_canon d.
+
 Fixpoint agree_steps (d : doc) (ops : list op) (steps : list steplit) : bool :=
   match ops, steps with
   | [], [] => true
@@ -139,6 +161,7 @@ Fixpoint agree_steps (d : doc) (ops : list op) (steps : list steplit) : bool :=
       && hyp_state d'
       && reread_ok d'
       && reparse_agree d' st
+      && reparse_model_agree d' st
       && agree_steps d' ops' steps'
   | _, _ => false
   end.
@@ -154,6 +177,7 @@ Definition agree (c : case) : bool :=
       && hyp_ok items d
       && reread_ok d
       && str_eqb (dump d) (dec_text text)
+      && parse_agree (dec_text text) d
       && read_eqb' (model_read d) (dec_read init)
       && agree_steps d (map dec_op ops) steps
   | LeafField line r =>
